@@ -22,7 +22,7 @@ TRUSTED = ["oracle: os / bufio / fmt.Fscanf", "hook: nsqd.VerifCrashPoint (build
 
 
 def gen(rng, tier):
-    n = 50 if tier == "quick" else 500
+    n = 36 if tier == "quick" else 500
     cases = []
     for _ in range(n):
         c = D.gen_history(rng, rng.randrange(4, 31), reopen=True)
